@@ -183,9 +183,10 @@ def classify_ip(**kw):
 
 
 def pre_ip(rsel: int, xn: int, sels: List[int], g: str, tmask: int, mode: int) -> bool:
-    if not (0 <= rsel <= 5 and 0 <= xn <= P.NX and in_shard(rsel + 6 * xn)):
+    if not (0 <= rsel <= 5 and 0 <= xn <= P.NX and (rsel < P.NSEL or rsel == 5)):
         return False
-    if not (rsel < P.NSEL or rsel == 5):
+    # dense shard key (no empty shards): X-Real-Ip selector (absent = NSEL) x number of X-Forwarded-For items
+    if not in_shard((rsel if rsel < P.NSEL else P.NSEL) + (P.NSEL + 1) * xn):
         return False
     if not (len(sels) == xn and 0 <= tmask < P.NT and 0 <= mode < P.NM):
         return False
@@ -206,7 +207,7 @@ def pre_ip(rsel: int, xn: int, sels: List[int], g: str, tmask: int, mode: int) -
     pre=pre_ip,
     quick=dict(NX=2, G=2, G2=1, NSEL=3, NT=2, NM=3, timeout=300, reach_timeout=150),
     thorough=dict(NX=3, G=3, G2=2, NSEL=5, NT=4, NM=4, timeout=900, reach_timeout=300),
-    nshards=dict(quick=18, thorough=24),
+    nshards=dict(quick=12, thorough=24),
     reach=["real_ip_wins", "xff_rightmost_untrusted", "trusted_skipped", "garbage_falls_back", "all_trusted",
            "clean_after_close", "short_numeric_garbage", "real_garbage_xff_valid"],
     classify=classify_ip,
